@@ -92,7 +92,7 @@ Proof.
   - unfold gcdext5 in H. destruct (mpz_gcdext a b) as [[g' u'] v'] eqn:E. apply gcdext_spec in E.
     pose proof (Z.gcd_nonneg a b). unfold priv_sign, mpz_sgn in H.
     destruct (Z.ltb_spec (Z.sgn g') 0); [lia |]. inversion H; subst. exact E.
-  - unfold dom_dxgcd, gcdext5 in H. destruct (mpz_gcdext a b) as [[g' u'] v'] eqn:E. apply gcdext_spec in E.
+  - unfold dom_dxgcd, ctor_copy, gcdext5 in H. cbv zeta in H. destruct (mpz_gcdext a b) as [[g' u'] v'] eqn:E. apply gcdext_spec in E.
     pose proof (Z.gcd_nonneg a b). unfold priv_sign, mpz_sgn in H.
     destruct (Z.ltb_spec (Z.sgn g') 0); [lia |]. inversion H; subst. destruct E as [Eg Eb].
     repeat split; try assumption.
